@@ -26,6 +26,32 @@ def names_for(nc):
     return NAMES + ['C%d' % i for i in range(len(NAMES) + 1, nc + 1)]
 
 
+HOSTILE_NAMES = ['Uninterrupted Power Party', 'Cy {Jr} Carter', '{0}', '%s %d', '100%', '{', '}', 'interrupted', 'Mr interrupt',
+                 "O'Neil", 'x<y>&z', '{name}', '%(x)s', '\\n', 'terminated', 'Elect', 'Defeat', 'Quota', 'Hopeful', 'Elected', 'Defeated',
+                 'Write-in', 'R', 'Q', 'Residual', 'None', 'null', '0', '1.5', '-1', 'Bj\u00f6rk', '\u6771\u4eac', 'e\u0301',
+                 'incomplete', '** x **', 'Add eligible', 'Count complete', 'Z' * 60]
+
+
+def hostile_names(rng, nc, repeats=False):
+    """
+    candidate names that look like the package's own words, format directives or markup -- a name is data and must come out of
+    every rendering unchanged and change nothing else.  No double quote (the BLT form cannot carry one), and no comma, bracket,
+    colon or arrow, which the monitors' own parsing of tie-break messages relies on.
+    """
+    if repeats:
+        pool = rng.sample(HOSTILE_NAMES, max(1, nc // 2))
+        return [rng.choice(pool) for _ in range(nc)]
+    if nc <= len(HOSTILE_NAMES):
+        # one name of each dangerous kind (the marker's word, a brace directive, a percent directive), the rest at random
+        must = [rng.choice(['Uninterrupted Power Party', 'interrupted', 'Mr interrupt']), rng.choice(['Cy {Jr} Carter', '{0}', '{', '}', '{name}']),
+                rng.choice(['%s %d', '100%', '%(x)s'])][:nc]
+        rest = rng.sample([n for n in HOSTILE_NAMES if n not in must], nc - len(must))
+        names = must + rest
+        rng.shuffle(names)
+        return names
+    return rng.sample(HOSTILE_NAMES, len(HOSTILE_NAMES)) + ['C%d' % i for i in range(len(HOSTILE_NAMES) + 1, nc + 1)]
+
+
 def base(nc, ns, lines, rng=None, tie=True):
     s = dict(nc=nc, ns=ns, names=names_for(nc), tie=None, withdrawn=[], undeclared=[], nick=None,
              lines=lines, title='T', source=None, comment=None, options=[], eq=False, family='?')
